@@ -1,6 +1,7 @@
 """Checks for the text-side properties C03, C04, C10, C11, C12."""
 import itertools
 import random
+import re
 import sys
 from fractions import Fraction
 
@@ -256,6 +257,32 @@ def toks_agree(impl, model):
     return True
 
 
+_NUMRUN = re.compile(r"[0-9.]+")
+
+
+def text_agrees(impl_text, model_answer):
+    """character-level comparison of `str(tree)` with the model's `strChars`: everything outside
+    the digit/dot runs must be identical, the runs must denote the same number"""
+    parts = model_answer.split()
+    if len(parts) != 2 or parts[0] != "text":
+        return False
+    try:
+        mtext = "" if parts[1] == "-" else "".join(chr(int(n)) for n in parts[1].split(","))
+    except ValueError:
+        return False
+    if _NUMRUN.sub("#", impl_text) != _NUMRUN.sub("#", mtext):
+        return False
+    for a, b in zip(_NUMRUN.findall(impl_text), _NUMRUN.findall(mtext)):
+        if a == b:
+            continue
+        try:
+            if not core.close(Fraction(a if not a.endswith(".") else a + "0"), Fraction(b)):
+                return False
+        except Exception:
+            return False
+    return True
+
+
 def has_paren_or_compact(t):
     k = t[0]
     if k in "CV":
@@ -364,8 +391,9 @@ def c04(ctx):
     drv = core.Driver()
     ans = drv.ask([f"print {core.tuple_to_wire(o['tree'])}" for o in out])
     ans2 = drv.ask([f"reparse {core.tuple_to_wire(o['tree'])}" for o in out])
-    bad, tokdiff, rediff = list(stale), [], []
-    for o, a, a2 in zip(out, ans, ans2):
+    ans3 = drv.ask([f"str {core.tuple_to_wire(o['tree'])}" for o in out])
+    bad, tokdiff, rediff, strdiff = list(stale), [], [], []
+    for o, a, a2, a3 in zip(out, ans, ans2, ans3):
         if "print_exc" in o:
             bad.append({"tree": core.tuple_str(o["tree"]), "print_exception": o["print_exc"]})
             continue
@@ -374,6 +402,8 @@ def c04(ctx):
         m = pr.model_tok_answer(a)
         if not toks_agree(o["toks"], m):
             tokdiff.append({"tree": core.tuple_str(o["tree"]), "text": o["text"], "impl": o["toks"], "model": m})
+        if not text_agrees(o["text"], a3):
+            strdiff.append({"tree": core.tuple_str(o["tree"]), "text": o["text"], "model": a3})
         m2 = pr.model_parse_answer(a2)
         if not pr.same_parse(o["reparse"], m2):
             rediff.append({"tree": core.tuple_str(o["tree"]), "text": o["text"],
@@ -384,7 +414,7 @@ def c04(ctx):
     ctx.coverage["traces_validated_against_impl"] += len(out)
     for o in out[:: max(1, len(out) // 8)][:8]:
         ctx.sample({"tree": core.tuple_str(o["tree"]), "text": o.get("text")})
-    finish(ctx, [("roundtrip", bad)], [("print_tokens", tokdiff), ("reparse", rediff)],
+    finish(ctx, [("roundtrip", bad)], [("print_tokens", tokdiff), ("print_text", strdiff), ("reparse", rediff)],
            "printing then parsing preserves meaning")
 
 
